@@ -18,12 +18,19 @@ import mutscreen as M
 import gen_src as G
 
 DEPENDENTS = {"encode_varint": ["encode_varint", "prepend_compact_size", "add_magic_prefix"], "op_push_data": ["op_push_data", "push_integer"],
-              "schnorr_tagged_hash": ["tagged_hash"], "tagged_hash": ["tagged_hash", "tapbranch_tagged_hash", "tapleaf_tagged_hash"]}
+              "schnorr_tagged_hash": ["tagged_hash"], "get_target_bits": ["block_header"], "serialize_header": ["block_header"], "get_block_hash": ["block_header"], "tagged_hash": ["tagged_hash", "tapbranch_tagged_hash", "tapleaf_tagged_hash"]}
 ONLY = [a for a in sys.argv[1:] if not a.startswith("--") and not a.endswith(".json")]
 
 
 def probes(qual, file=""):
     r = random.Random(5)
+    if qual.startswith("BlockHeader."):
+        hs = []
+        for bits in (0x1d00ffff, 0x03000001, 0x02000001, 0x00ffffff, 0x207fffff, 0x21000001, 0xff7fffff, 0x04800000, 0):
+            hs.append((1, bytes(range(32)), bytes(range(32, 64)), 1231006505, bits, 2083236893))
+        hs += [(2 ** 32 - 1, b"\xff" * 32, bytes(32), 0, 0x1d00ffff, 2 ** 32 - 1), (2 ** 32, bytes(32), bytes(32), 5, 0x1d00ffff, 7), (-1, bytes(32), bytes(32), 5, 0x1d00ffff, 7),
+               (1, bytes(32), bytes(32), 2 ** 32, 0x1d00ffff, 7), (1, bytes(32), bytes(32), 5, 2 ** 32, 7), (1, bytes(32), bytes(32), 5, 0x1d00ffff, 2 ** 32)]
+        return hs
     if qual == "add_magic_prefix":
         return [(m,) for m in ["", "a", "x" * 252, "y" * 253, "z" * 70000, "\u00e9\u00e9", "\u00e9" * 127, "\u00e9" * 126 + "a", "ab\ncd"]]
     if qual == "tagged_hash":
@@ -72,6 +79,10 @@ for args in T.probes(qual, file):
     try:
         if qual == "tagged_hash" and file.endswith("schnorr.py"):
             r = schnorr.tagged_hash(*args)
+        elif qual.startswith("BlockHeader."):
+            from bitcoinutils import block
+            h = block.BlockHeader(args[0], args[1], args[2], args[3], args[4], args[5])
+            r = getattr(h, qual.split(".")[1])()
         elif qual == "tapleaf_tagged_hash":
             r = utils.tapleaf_tagged_hash(script.Script(args[0]))
         elif qual in ("encode_varint", "prepend_compact_size", "parse_compact_size", "vi_to_int", "add_magic_prefix", "tagged_hash",
